@@ -10,6 +10,7 @@ from common import B, L, Nat, O, P, S
 
 MODEL_FILES = ["Model/Validio.v", "Model/ValidioInst.v", "Corr/Obs.v"]
 HEADER = V.HEADER + """Inductive run_spec := RRead (m : mode) (limit : option nat) (raws : list (list text)) (fault : bool)
+                    | RValidate (limit : option nat) (raws : list (list text)) (fault : bool)   (* cutplace.validate(...) *)
                     | RWrite (rows : list (list text)) (do_close : bool)
                     | RWriteRows (portions : list (list (list text))) (do_close : bool).   (* one write_rows call per portion *)
 Fixpoint wlog (c : cid cstate) (w : wstate cstate) (rows : list (list text)) : wstate cstate * list event :=
@@ -35,6 +36,7 @@ Fixpoint plog (c : cid cstate) (w : wstate cstate) (ps : list (list (list text))
 Definition run_log (c : cid cstate) (r : run_spec) : list event :=
   match r with
   | RRead m limit raws fault => r_log (api_rows c m limit [] raws fault)
+  | RValidate limit raws fault => r_log (validate_api c limit [] raws fault)
   | RWrite rows do_close =>
       let '(wf, evs) := wlog c (writer_init c []) rows in
       reset_events (length (c_checks c)) 0 ++ evs ++ (if do_close then snd (writer_close c wf) else [])
@@ -96,6 +98,14 @@ def make_case(inp):
             text = V.encode(spec, r["table"], broken_tail=r.get("fault", False))
             raws, fault = V.raw_rows(V.build_cid(spec), spec, text)
             del_before = len(V.LOG)
+            if r.get("api") == "validate":
+                # the validate-only function: it stops after `limit` data rows
+                try:
+                    validio.validate(cid, io.StringIO(text, newline=""), validate_until=r["limit"])
+                except Exception:  # noqa
+                    pass
+                specs.append("(RValidate %s %s %s)" % (O(r["limit"], Nat), L(raws, lambda x: L(x, S)), B(fault)))
+                continue
             try:
                 for _ in validio.rows(cid, io.StringIO(text, newline=""), on_error=r["mode"], validate_until=r["limit"]):
                     pass
@@ -158,6 +168,8 @@ def gen_inputs(tier, rnd):
                 table = V.gen_table(rnd, spec, nrows=rnd.randint(0, 6))
                 runs.append({"kind": "read", "mode": rnd.choice(["raise", "yield", "continue"]),
                              "limit": rnd.choice([None, None, 0, 1, 2, 4]), "table": table, "fault": rnd.random() < 0.1})
+                if rnd.random() < 0.25:
+                    runs[-1]["api"] = "validate"
             elif spec["format"] == "delimited" or True:
                 rows = V.gen_table(rnd, spec, nrows=rnd.randint(0, 5), ragged=spec["format"] != "fixed")
                 if spec["format"] == "fixed":
